@@ -213,22 +213,18 @@ impl FeelType {
     if actual_value.type_of().is_conformant(self) {
       return actual_value.clone();
     }
-    match self {
-      // to singleton list
-      FeelType::List(target_type) => {
-        if actual_value.type_of().is_conformant(target_type) {
-          return Value::List(Values::new(vec![actual_value.clone()]));
-        }
+    // to singleton list
+    if let FeelType::List(target_type) = self {
+      if actual_value.type_of().is_conformant(target_type) {
+        return Value::List(Values::new(vec![actual_value.clone()]));
       }
-      // from singleton list
-      target_type => {
-        if let FeelType::List(actual_type) = actual_value.type_of() {
-          if actual_type.is_conformant(target_type) {
-            if let Value::List(values) = actual_value {
-              if values.len() == 1 {
-                return values.as_vec()[0].clone();
-              }
-            }
+    }
+    // from singleton list
+    if let FeelType::List(actual_type) = actual_value.type_of() {
+      if actual_type.is_conformant(self) {
+        if let Value::List(values) = actual_value {
+          if values.len() == 1 {
+            return values.as_vec()[0].clone();
           }
         }
       }
